@@ -40,3 +40,7 @@ reg('C06', [('verus', 'xoshiro')],
     level='proof', trusted_base=TB_COMMON + ['jump polynomials x^(2^k) mod minpoly(T) are recomputed on every run by tools/jumppoly.py (exact GF(2)[x] arithmetic, not machine-checked by the verifier)'],
     explanation='proved for all states: jump()/long_jump() == reference polynomial J_ref(T) applied to the old state (both loop invariants); assumed+recomputed: J_ref(x) == x^(2^k) mod minpoly(T), hence J_ref(T) == T^(2^k)',
     assumptions=['p(T) == T^(2^k) whenever p == x^(2^k) mod minpoly(T) (textbook linear algebra over GF(2), not discharged by the verifier)'])
+reg('C04', [('verus', 'xorshift')],
+    level='proof', trusted_base=TB_COMMON + TB_RC + ['T4 Wrapping shim: local stand-in for core::num::Wrapping with verified operator impls (same operator semantics assumed; Kani cross-check)'],
+    explanation='next_u32 carries `(x,y,z,w)\' == xor128_next(x,y,z,w)` and `r == new w`; from_seed carries the LE-word / 0x0BAD5EED postconditions',
+    assumptions=['stream positions follow from the one-step contract by induction'])
